@@ -227,14 +227,15 @@ def run(ctx):
         for falling in (0, 1):
             for old in (0, 1):
                 for new in (0, 1):
-                    for selected in (True, False):
-                        sel_src = src if selected else [o for o in others if o != src][(old + 2 * new + falling) % 7]
+                    for sel_src in others:
+                        # (every one of the eight source selections: the selected source itself and each of the seven others)
+                        selected = sel_src == src
                         get, r, bad, w, b = call(m, board(uio_dir=Arr([0, 0, 0]), dasr__bits=(DASR[bit] if old else 0),
                                                           daisr__bits=0, daicr__bits=daicr(sel_src, falling)), new)
                         fire = selected and ((old == 1 and new == 0 and falling) or (old == 0 and new == 1 and not falling))
                         want = FIRE if fire else 0
                         nedge += 1
-                        chk.ob("edge/%s/falling%d/old%d/new%d/%s" % (src, falling, old, new, "sel" if selected else "other"),
+                        chk.ob("edge/%s/falling%d/old%d/new%d/%s" % (src, falling, old, new, "sel" if selected else "other-" + sel_src),
                                get("daisr.bits") == want and not bad,
                                "the interrupt flip-flop and source flag are raised exactly on the configured transition of the "
                                "selected source", b.loc(), "DAISR after: %r expected %#x (selected source %s)"
@@ -256,9 +257,9 @@ def run(ctx):
         for falling in (0, 1):
             for old in (0, 1):
                 for new in (0, 1):
-                    for selected in (True, False):
+                    for sel_src in others:
+                        selected = sel_src == src
                         m, args, ov = mk(bool(new))
-                        sel_src = src if selected else ("Uio1" if src != "Uio1" else "Uio2")
                         ov = dict(ov)
                         ov.update({"dasr__bits": (DASR[bit] if old else 0), "daisr__bits": 0,
                                    "daicr__bits": daicr(sel_src, falling)})
@@ -266,12 +267,12 @@ def run(ctx):
                         fire = selected and ((old == 1 and new == 0 and falling) or (old == 0 and new == 1 and not falling))
                         want = FIRE if fire else 0
                         nedge += 1
-                        chk.ob("edge/%s#%d/falling%d/old%d/new%d/%s" % (src, ci, falling, old, new, "sel" if selected else "other"),
+                        chk.ob("edge/%s#%d/falling%d/old%d/new%d/%s" % (src, ci, falling, old, new, "sel" if selected else "other-" + sel_src),
                                get("daisr.bits") == want and not bad and bits_all(get("dasr.bits"), DASR[bit], bool(new)),
                                "a change of a comparator output (moved by its analog input or by a DAC write) raises the interrupt "
                                "exactly on the configured transition when it is the selected source", b.loc(),
                                "via %s: DAISR %r expected %#x, DASR %s" % (m, get("daisr.bits"), want, _short(get("dasr.bits"))))
-    chk.floor("edge-interrupt cells", nedge, 144)
+    chk.floor("edge-interrupt cells", nedge, 500)
     # jumper 2 never interrupts
     get, r, bad, w, b = call("set_jumper2", board(daisr__bits=0), frozenset((0, 1)))
     chk.ob("edge/jumper2-none", get("daisr.bits") == 0, "jumper 2 is not an interrupt source", b.loc(), "%r" % (get("daisr.bits"),))
